@@ -1,10 +1,50 @@
-(* C46  The decoder with the known defect classes repaired (Cases.required_string / required_list:
-   crash -> user error; a list holding a 0x81-form single byte -> user error) satisfies the property
-   at full strength.  This is what justifies the outcome the harness demands on those inputs. *)
-From CV Require Import C46.Model C46.Spec C46.Proofs C46.Cases.
+(* C46  Never-crash at full strength, outcome classes, and the regression facts for the four defects repaired
+   in onflow/cadence commit 8b09734 (their witness inputs are now rejected with a user error). *)
+From CV Require Import C46.Model C46.Spec C46.Proofs.
 From Coq Require Import Lia ZArith List.
 Import ListNotations.
 Open Scope Z_scope.
+
+Definition never_crash_statement : Prop :=
+  forall inp, bytes inp -> len inp < 2 ^ 62 ->
+    graceful (rlp_decode_string inp) /\ graceful (rlp_decode_list inp).
+
+Theorem never_crash : never_crash_statement.
+Proof.
+  intros inp Hb Hlen. split; [apply rlp_string_graceful|apply rlp_list_graceful]; assumption.
+Qed.
+
+(* every non-canonical (or truncated, or over-long, or trailing-bytes) input is rejected with a user error *)
+Theorem string_rejects_noncanonical inp :
+  bytes inp -> len inp < 2 ^ 62 -> (forall p, ~ canonical_string inp p) -> rlp_decode_string inp = Err UserOther.
+Proof.
+  intros Hb Hlen Hn. destruct (rlp_string_exact inp Hb Hlen) as [(p & Hc & _)|(_ & E)]; [|exact E].
+  exfalso. exact (Hn p Hc).
+Qed.
+
+Theorem list_rejects_noncanonical inp :
+  bytes inp -> len inp < 2 ^ 62 -> (forall items, ~ canonical_list inp items) -> rlp_decode_list inp = Err UserOther.
+Proof.
+  intros Hb Hlen Hn. destruct (rlp_list_exact inp Hb Hlen) as [(items & Hc & _)|(_ & E)]; [|exact E].
+  exfalso. exact (Hn items Hc).
+Qed.
+
+Theorem outcome_classes inp :
+  bytes inp -> len inp < 2 ^ 62 ->
+  (exists p, rlp_decode_string inp = Ok p) \/ rlp_decode_string inp = Err UserOther.
+Proof.
+  intros Hb Hlen. destruct (rlp_string_cases inp Hb Hlen) as [E|(p & E & _)]; eauto.
+Qed.
+
+(* in particular the fuel of the list loop of the model is never exhausted *)
+Theorem outcome_classes_list inp :
+  bytes inp -> len inp < 2 ^ 62 ->
+  (exists p, rlp_decode_list inp = Ok p) \/ rlp_decode_list inp = Err UserOther.
+Proof.
+  intros Hb Hlen. destruct (rlp_list_cases inp Hb Hlen) as [E|(p & E & _)]; eauto.
+Qed.
+
+(* ---- the item rule: 0x81 x with x < 0x80 is not a canonical item, so a list holding it is rejected ---- *)
 
 Lemma item_nc1_not_ok it : item_nc1 it -> ~ item_ok it.
 Proof.
@@ -22,347 +62,25 @@ Proof.
       pose proof (len_nonneg (be_enc (blen payload))). change blen with len in *. lia.
 Qed.
 
-Lemma is_nc1_true it : is_nc1 it = true -> bytes it -> item_nc1 it.
+Theorem list_with_nc1_item_rejected inp items :
+  bytes inp -> len inp < 2 ^ 62 -> Exists item_nc1 items -> rlp_decode_list inp <> Ok items.
 Proof.
-  unfold is_nc1. intros H Hb.
-  destruct it as [|a [|x [|y r]]]; try discriminate.
-  apply andb_true_iff in H. destruct H as [Ha H]. apply Z.eqb_eq in Ha. subst a.
-  apply Z.ltb_lt in H. exists x. split; [|reflexivity].
-  apply bytes_cons in Hb. destruct Hb as [_ Hb]. apply bytes_cons in Hb. destruct Hb as [Hx _].
-  unfold is_byte in Hx. lia.
+  intros Hb Hlen Hex E. destruct (rlp_list_sound inp items Hb Hlen E) as [Hok _].
+  apply Exists_exists in Hex. destruct Hex as (it & Hin & Hnc).
+  rewrite Forall_forall in Hok. exact (item_nc1_not_ok it Hnc (Hok it Hin)).
 Qed.
 
-Lemma is_nc1_false it : is_nc1 it = false -> ~ item_nc1 it.
-Proof.
-  intros H (x & Hx & ->). unfold is_nc1 in H. rewrite Z.eqb_refl in H. simpl in H. apply Z.ltb_ge in H. lia.
-Qed.
-
-Theorem required_string_exact inp :
-  bytes inp -> len inp < 2 ^ 62 -> string_decoder_exact required_string inp.
-Proof.
-  intros Hb Hlen. unfold string_decoder_exact, required_string.
-  destruct (rlp_string_cases inp Hb Hlen) as [E|[(p & E & Hc)|(E & Hc)]]; rewrite E.
-  - right. split; [|reflexivity]. intros p [Hp Hi].
-    pose proof (rlp_decode_encode_string p Hp) as Hd. rewrite <- Hi in Hd.
-    rewrite Hd in E by exact Hlen. discriminate.
-  - left. exists p. split; [assumption|reflexivity].
-  - right. split; [|reflexivity]. intros p. apply string_crash_not_canonical; assumption.
-Qed.
-
-Theorem required_list_exact inp :
-  bytes inp -> len inp < 2 ^ 62 -> list_decoder_exact required_list inp.
-Proof.
-  intros Hb Hlen. unfold list_decoder_exact, required_list.
-  assert (Hcanon : forall items', canonical_list inp items' -> rlp_decode_list inp = Ok items').
-  { intros items' [Hf Hi]. pose proof (rlp_decode_encode_list items' Hf) as Hd.
-    rewrite <- Hi in Hd. apply Hd; assumption. }
-  destruct (rlp_list_cases inp Hb Hlen) as [E|[(items & E & Hf & Hi)|(E & Hh)]]; rewrite E.
-  - right. split; [|reflexivity]. intros items' Hc. rewrite (Hcanon items' Hc) in E. discriminate.
-  - pose proof (rlp_list_ok_accepted inp items Hb Hf Hi) as [Hacc _].
-    assert (Hbi : Forall bytes items).
-    { subst inp. apply list_frame_bytes_payload in Hb. apply bytes_concat_forall. exact Hb. }
-    destruct (existsb is_nc1 items) eqn:Ex.
-    + right. split; [|reflexivity]. intros items' Hc.
-      pose proof (Hcanon items' Hc) as Hd. rewrite E in Hd. inversion Hd; subst items'.
-      destruct Hc as [Hok _]. apply existsb_exists in Ex. destruct Ex as (it & Hin & Hnc).
-      rewrite Forall_forall in Hok, Hbi.
-      apply (item_nc1_not_ok it); [apply is_nc1_true; [exact Hnc|apply Hbi; exact Hin]|apply Hok; exact Hin].
-    + left. exists items. split; [|reflexivity]. split; [|exact Hi].
-      rewrite Forall_forall in *. intros it Hin. destruct (Hacc it Hin) as [H|H]; [exact H|].
-      exfalso. apply (is_nc1_false it); [|exact H].
-      destruct (is_nc1 it) eqn:Eit; [|reflexivity].
-      assert (existsb is_nc1 items = true) by (apply existsb_exists; exists it; auto). congruence.
-  - right. split; [|reflexivity]. intros items' Hc. rewrite (Hcanon items' Hc) in E. discriminate.
-Qed.
-
-Theorem required_graceful inp :
-  bytes inp -> len inp < 2 ^ 62 -> graceful (required_string inp) /\ graceful (required_list inp).
-Proof.
-  intros Hb Hlen. split.
-  - destruct (required_string_exact inp Hb Hlen) as [(p & _ & E)|(_ & E)]; rewrite E; exact I.
-  - destruct (required_list_exact inp Hb Hlen) as [(p & _ & E)|(_ & E)]; rewrite E; exact I.
-Qed.
-
-(* the required outcome differs from the implementation model only on the known defect classes *)
-Theorem required_string_differs inp :
-  bytes inp -> len inp < 2 ^ 62 -> required_string inp <> rlp_decode_string inp -> string_crash inp.
-Proof.
-  intros Hb Hlen Hd. unfold required_string in Hd.
-  destruct (rlp_string_cases inp Hb Hlen) as [E|[(p & E & _)|(E & Hc)]]; rewrite E in Hd; try congruence.
-Qed.
-
-Theorem required_list_differs inp :
-  bytes inp -> len inp < 2 ^ 62 -> required_list inp <> rlp_decode_list inp ->
-  has_huge_len inp \/ exists items, rlp_decode_list inp = Ok items /\ Exists item_nc1 items.
-Proof.
-  intros Hb Hlen Hd. unfold required_list in Hd.
-  destruct (rlp_list_cases inp Hb Hlen) as [E|[(items & E & Hf & Hi)|(E & Hh)]]; rewrite E in Hd; try congruence.
-  - right. exists items. split; [exact E|].
-    destruct (existsb is_nc1 items) eqn:Ex; [|congruence].
-    apply existsb_exists in Ex. destruct Ex as (it & Hin & Hnc).
-    apply Exists_exists. exists it. split; [exact Hin|]. apply is_nc1_true; [exact Hnc|].
-    subst inp. apply list_frame_bytes_payload in Hb. apply bytes_concat_forall in Hb.
-    rewrite Forall_forall in Hb. apply Hb. exact Hin.
-  - left. exact Hh.
-Qed.
-
-(* ------------------------------------------------------------------ never-crash: statement, refutation, partial *)
-
-Definition never_crash_statement : Prop :=
-  forall inp, bytes inp -> len inp < 2 ^ 62 ->
-    graceful (rlp_decode_string inp) /\ graceful (rlp_decode_list inp).
-
+(* ---- the former defect witnesses ---- *)
 Definition w_index : list Z := [129].
 Definition w_overflow : list Z := [191; 127; 255; 255; 255; 255; 255; 255; 255].
 Definition w_list_overflow : list Z := [201; 191; 127; 255; 255; 255; 255; 255; 255; 255].
 Definition w_list_overflow2 : list Z := [201; 255; 127; 255; 255; 255; 255; 255; 255; 255].
+Definition w_list_nc1 : list Z := [194; 129; 5].
 
-Lemma bytes_dec_true l : forallb (fun b => (0 <=? b) && (b <? 256)) l = true -> bytes l.
-Proof.
-  intro H. unfold bytes. rewrite Forall_forall. rewrite forallb_forall in H. intros x Hx.
-  specialize (H x Hx). apply andb_true_iff in H. destruct H as [H1 H2].
-  apply Z.leb_le in H1. apply Z.ltb_lt in H2. unfold is_byte. lia.
-Qed.
-
-Theorem never_crash_witnesses :
-  (bytes w_index /\ len w_index < 2 ^ 62 /\ rlp_decode_string w_index = Err Crash) /\
-  (bytes w_overflow /\ len w_overflow < 2 ^ 62 /\ rlp_decode_string w_overflow = Err Crash) /\
-  (bytes w_list_overflow /\ len w_list_overflow < 2 ^ 62 /\ rlp_decode_list w_list_overflow = Err Crash) /\
-  (bytes w_list_overflow2 /\ len w_list_overflow2 < 2 ^ 62 /\ rlp_decode_list w_list_overflow2 = Err Crash).
-Proof.
-  repeat split; try (apply bytes_dec_true; reflexivity); try reflexivity.
-Qed.
-
-Theorem never_crash_refuted : ~ never_crash_statement.
-Proof.
-  intro H. destruct never_crash_witnesses as [(Hb & Hl & E) _].
-  destruct (H w_index Hb Hl) as [G _]. rewrite E in G. exact G.
-Qed.
-
-Theorem never_crash_partial inp :
-  bytes inp -> len inp < 2 ^ 62 -> ~ string_crash inp -> no_huge_len inp ->
-  graceful (rlp_decode_string inp) /\ graceful (rlp_decode_list inp).
-Proof.
-  intros Hb Hlen Hs Hn. split; [apply rlp_string_graceful|apply rlp_list_graceful]; assumption.
-Qed.
-
-(* whatever the input, the model's outcome is a value, a user error or a crash:
-   in particular the fuel of the list loop is never exhausted and nothing else is raised *)
-Theorem outcome_classes inp :
-  bytes inp -> len inp < 2 ^ 62 ->
-  (exists p, rlp_decode_string inp = Ok p) \/ rlp_decode_string inp = Err UserOther \/ rlp_decode_string inp = Err Crash.
-Proof.
-  intros Hb Hlen. destruct (rlp_string_cases inp Hb Hlen) as [E|[(p & E & _)|(E & _)]]; eauto.
-Qed.
-
-Theorem outcome_classes_list inp :
-  bytes inp -> len inp < 2 ^ 62 ->
-  (exists p, rlp_decode_list inp = Ok p) \/ rlp_decode_list inp = Err UserOther \/ rlp_decode_list inp = Err Crash.
-Proof.
-  intros Hb Hlen. destruct (rlp_list_cases inp Hb Hlen) as [E|[(p & E & _)|(E & _)]]; eauto.
-Qed.
-
-Lemma short_no_huge_len inp : len inp < 9 -> no_huge_len inp.
-Proof.
-  intros H (pre & b & l & rest & E & _ & (H8 & _)).
-  assert (E' : len inp = len (pre ++ b :: l ++ rest)) by (rewrite <- E; reflexivity).
-  rewrite len_app, (len_cons b), len_app in E'. change blen with len in H8.
-  pose proof (len_nonneg pre). pose proof (len_nonneg rest). lia.
-Qed.
-
-Lemma short_no_string_crash inp : len inp < 9 -> inp <> [129] -> ~ string_crash inp.
-Proof.
-  intros H Hne [E|(l & rest & E & (H8 & _))]; [contradiction|].
-  assert (E' : len inp = len (191 :: l ++ rest)) by (rewrite <- E; reflexivity).
-  rewrite len_cons, len_app in E'. change blen with len in H8. pose proof (len_nonneg rest). lia.
-Qed.
-
-(* ------------------------------------------------------------------ exact crash class of RLP.decodeList *)
-
-(* RLP.decodeList crashes exactly when: the input starts with a canonical list prefix for a non-empty payload
-   of announced size S that passes the (overflow-prone) size test, and after some well-framed items covering
-   fewer than S bytes the next item starts with 0xbf / 0xff and an 8-byte length that overflows int. *)
-Definition list_crash (inp : list Z) : Prop :=
-  exists b hb S items c l rest,
-    header false (b :: hb) S /\ S <> 0 /\
-    inp = (b :: hb) ++ concat items ++ c :: l ++ rest /\
-    (S + len (b :: hb) <= len inp \/ 2 ^ 63 <= S + len (b :: hb)) /\
-    Forall framed items /\ len (concat items) < S /\
-    (c = 191 \/ c = 255) /\ huge_len_at (len (b :: hb) + len (concat items) + 9) l.
-
-Lemma list_loop_crash_witness fuel : forall inp lds done i e r,
-  bytes inp -> len inp < 2 ^ 62 -> 0 <= i <= len inp -> 0 <= r <= i ->
-  list_loop fuel inp lds done i e r = Err Crash ->
-  exists new pre c l rest,
-    Forall framed new /\ inp = pre ++ concat new ++ c :: l ++ rest /\ len pre = i /\
-    r + len (concat new) < lds /\ (c = 191 \/ c = 255) /\ huge_len_at (i + len (concat new) + 9) l.
-Proof.
-  induction fuel as [|fuel IH]; intros inp lds done i e r Hb Hlen Hi Hr H;
-    rewrite list_loop_unfold in H; destruct (r <? lds) eqn:Er; try discriminate.
-  apply Z.ltb_lt in Er.
-  destruct (Z.eq_dec i (len inp)) as [Ei|Ei].
-  { rewrite read_size_oob in H by lia. discriminate. }
-  assert (Hi' : 0 <= i < len inp) by lia.
-  pose proof (item_step_cases inp i Hb Hlen Hi') as Hstep.
-  destruct (read_size inp i) as [[[k ds] sz]|err'].
-  2:{ cbn [bind] in H. congruence. }
-  cbn [bind] in H. cbv zeta in Hstep, H.
-  destruct Hstep as [Hinc|[(it & pre & post & Hsl & Hf & He & Hinp & Hpre)|(Hle & Hsl & Hh)]].
-  - replace (wrap_int (ds + sz) >? len inp) with true in H by (symmetry; rewrite Z.gtb_ltb; apply Z.ltb_lt; lia).
-    discriminate.
-  - pose proof (framed_len it Hf) as Hlit.
-    assert (Hle : wrap_int (ds + sz) <= len inp).
-    { rewrite He, Hinp, !len_app. pose proof (len_nonneg post). lia. }
-    replace (wrap_int (ds + sz) >? len inp) with false in H by (symmetry; rewrite Z.gtb_ltb; apply Z.ltb_ge; lia).
-    rewrite Hsl in H. cbn [bind] in H. rewrite He in H.
-    replace (i + len it - i) with (len it) in H by lia.
-    rewrite (wrap_int_id (len it)) in H by lia. rewrite wrap_int_id in H by lia.
-    apply IH in H; try assumption; try lia.
-    destruct H as (new & pre' & c & l & rest & Hfn & Hinp' & Hpre' & Hlt & Hc & Hhuge).
-    exists (it :: new), pre, c, l, rest. simpl concat. rewrite len_app.
-    split; [constructor; assumption|]. split.
-    + (* inp = pre ++ it ++ post = pre' ++ ... with len pre' = len pre + len it *)
-      rewrite Hinp in Hinp'.
-      rewrite (app_assoc pre it post) in Hinp'.
-      apply app_eq_len_l in Hinp'; [|rewrite len_app; lia].
-      destruct Hinp' as [<- ->]. rewrite Hinp. rewrite <- !app_assoc. reflexivity.
-    + split; [assumption|]. split; [lia|]. split; [assumption|].
-      replace (i + (len it + len (concat new)) + 9) with (i + len it + len (concat new) + 9) by lia. exact Hhuge.
-  - destruct Hh as (pre & c & l & rest & Hinp & Hpre & Hc & Hhuge).
-    exists [], pre, c, l, rest. simpl concat. rewrite len_nil.
-    split; [constructor|]. split; [exact Hinp|]. split; [exact Hpre|]. split; [lia|]. split; [exact Hc|].
-    rewrite Hpre in Hhuge. replace (i + 0 + 9) with (i + 9) by lia. exact Hhuge.
-Qed.
-
-Lemma list_loop_crash_complete : forall items inp lds done fuel pre c l rest e r,
-  inp = pre ++ concat items ++ c :: l ++ rest -> Forall framed items ->
-  bytes inp -> len inp < 2 ^ 62 -> (List.length items < fuel)%nat ->
-  r + len (concat items) < lds -> 0 <= r <= len pre ->
-  (c = 191 \/ c = 255) -> huge_len_at (len pre + len (concat items) + 9) l ->
-  list_loop fuel inp lds done (len pre) e r = Err Crash.
-Proof.
-  induction items as [|it items IH]; intros inp lds done fuel pre c l rest e r Hinp Hf Hb Hlen Hfuel Hlds Hr Hc Hhuge;
-    rewrite list_loop_unfold; simpl concat in *; rewrite ?len_nil, ?len_app in *.
-  - replace (r <? lds) with true by (symmetry; apply Z.ltb_lt; lia).
-    destruct fuel as [|fuel]; [simpl in Hfuel; lia|].
-    simpl app in Hinp. subst inp.
-    rewrite read_size_app by assumption.
-    destruct Hhuge as (H8 & Hnz & Hmax & Hov).
-    assert (Hbl : bytes l).
-    { apply bytes_app in Hb. destruct Hb as [_ Hb]. apply bytes_cons in Hb. destruct Hb as [_ Hb].
-      apply bytes_app in Hb. tauto. }
-    rewrite (huge_read_hdr c l rest Hc Hbl H8 Hnz Hmax). cbn [shift_hdr bind]. cbv zeta.
-    rewrite be_val_uint in *. pose proof (be_uint_bounds l Hbl) as Hbd. pose proof (len_nonneg pre).
-    assert (len pre <= len (pre ++ c :: l ++ rest)) by (rewrite len_app; pose proof (len_nonneg (c :: l ++ rest)); lia).
-    rewrite (wrap_int_ovf (len pre + 9 + be_uint l)) by lia.
-    pose proof (len_nonneg (pre ++ c :: l ++ rest)).
-    replace (len pre + 9 + be_uint l - 2 ^ 64 >? len (pre ++ c :: l ++ rest)) with false
-      by (symmetry; rewrite Z.gtb_ltb; apply Z.ltb_ge; lia).
-    rewrite slice_crash by lia. reflexivity.
-  - inversion Hf as [|it' items' Hfit Hfitems]; subst it' items'.
-    pose proof (framed_len it Hfit) as Hlit. pose proof (len_nonneg (concat items)) as Hlr.
-    replace (r <? lds) with true by (symmetry; apply Z.ltb_lt; lia).
-    destruct fuel as [|fuel]; [simpl in Hfuel; lia|].
-    assert (Hinp2 : inp = pre ++ it ++ (concat items ++ c :: l ++ rest)) by (rewrite Hinp, <- !app_assoc; reflexivity).
-    destruct (item_step_complete pre it (concat items ++ c :: l ++ rest) Hfit) as (k & ds & sz & Hrs & Hds);
-      [rewrite <- Hinp2; assumption|rewrite <- Hinp2; assumption|].
-    rewrite <- Hinp2 in Hrs. rewrite Hrs. cbn [bind]. cbv zeta.
-    assert (Htot : len inp = len pre + len it + len (concat items ++ c :: l ++ rest))
-      by (rewrite Hinp2, !len_app; lia).
-    pose proof (len_nonneg (concat items ++ c :: l ++ rest)). pose proof (len_nonneg pre).
-    rewrite Hds. rewrite (wrap_int_id (len pre + len it)) by lia.
-    replace (len pre + len it >? len inp) with false by (symmetry; rewrite Z.gtb_ltb; apply Z.ltb_ge; lia).
-    assert (Hsl : slice inp (len pre) (len pre + len it) = Ok it) by (rewrite Hinp2; apply slice_app).
-    rewrite Hsl. cbn [bind].
-    replace (len pre + len it - len pre) with (len it) by lia.
-    rewrite (wrap_int_id (len it)) by lia. rewrite wrap_int_id by lia.
-    replace (len pre + len it) with (len (pre ++ it)) by (rewrite len_app; lia).
-    apply (IH inp lds (done ++ [it]) fuel (pre ++ it) c l rest).
-    + rewrite Hinp2, <- !app_assoc. reflexivity.
-    + assumption.
-    + assumption.
-    + assumption.
-    + simpl in Hfuel. lia.
-    + lia.
-    + rewrite len_app. lia.
-    + assumption.
-    + rewrite len_app. replace (len pre + len it + len (concat items) + 9)
-        with (len pre + (len it + len (concat items)) + 9) by lia. exact Hhuge.
-Qed.
-
-Theorem rlp_list_crash_iff inp :
-  bytes inp -> len inp < 2 ^ 62 -> (rlp_decode_list inp = Err Crash <-> list_crash inp).
-Proof.
-  intros Hb Hlen. split.
-  - (* every crash has this shape *)
-    intro E. destruct inp as [|b rest]; [discriminate|].
-    pose proof Hb as Hb'. apply bytes_cons in Hb'. destruct Hb' as [Hbb Hbr].
-    unfold rlp_decode_list, decode_list in E.
-    unfold ErrIncompleteInput, ErrListSizeMismatch, ErrTypeMismatch in E.
-    change (read_size (b :: rest) 0) with (read_size ([] ++ b :: rest) (len [])) in E.
-    rewrite read_size_app in E by assumption. rewrite len_nil in E.
-    destruct (read_hdr b rest) as [[[k h] sz]|e] eqn:Eh.
-    2:{ apply read_hdr_err in Eh. subst e. discriminate. }
-    apply read_hdr_sound in Eh; [|assumption|assumption].
-    cbn [shift_hdr bind] in E. rewrite Z.add_0_l in E.
-    destruct Eh as [(-> & Hb127 & -> & ->)|(hb & rest' & -> & Hh & ->)]; [discriminate|].
-    destruct k; [discriminate|].
-    pose proof (header_len _ _ _ Hh) as [Hhl Hsz]. rewrite len_cons in Hhl. rewrite ?max_int_eq in Hsz.
-    pose proof (len_nonneg hb) as Hhb. pose proof (len_nonneg rest') as Hr'.
-    assert (Hlen' : len (b :: hb ++ rest') = 1 + len hb + len rest') by (rewrite len_cons, len_app; lia).
-    destruct (sz =? 0) eqn:Esz.
-    { cbn [bind] in E. destruct (negb (1 =? len (b :: hb ++ rest'))); congruence. }
-    apply Z.eqb_neq in Esz.
-    destruct (wrap_int (sz + (1 + len hb)) >? len (b :: hb ++ rest')) eqn:Einc; [cbn [bind] in E; discriminate E|].
-    destruct (list_loop (S (length (b :: hb ++ rest'))) (b :: hb ++ rest') sz [] (1 + len hb) 0 0)
-      as [[[ret e'] r']|err] eqn:EL.
-    { cbn [bind] in E. destruct (negb (r' =? sz)); cbn [bind] in E; [discriminate E|].
-      destruct (negb (wrap_int (e' - 0) =? len (b :: hb ++ rest'))); discriminate E. }
-    cbn [bind] in E. assert (err = Crash) by congruence. subst err.
-    apply list_loop_crash_witness in EL; try assumption; try lia.
-    destruct EL as (new & pre & c & l & rest & Hfn & Hinp & Hpre & Hlt & Hc & Hhuge).
-    change (b :: hb ++ rest') with ((b :: hb) ++ rest') in Hinp.
-    apply app_eq_len_l in Hinp; [|rewrite len_cons; lia]. destruct Hinp as [<- Hrest].
-    exists b, hb, sz, new, c, l, rest. split; [exact Hh|]. split; [exact Esz|].
-    split; [rewrite Hrest; reflexivity|]. split.
-    + (* the size test passed: either honestly or by overflow *)
-      rewrite Z.gtb_ltb in Einc. apply Z.ltb_ge in Einc. rewrite len_cons.
-      destruct (Z_le_dec (2 ^ 63) (sz + (1 + len hb))) as [Hov|Hov]; [right; exact Hov|left].
-      rewrite wrap_int_id in Einc by lia.
-      change (b :: hb ++ rest') with ((b :: hb) ++ rest') in Einc. exact Einc.
-    + split; [exact Hfn|]. split; [lia|]. split; [exact Hc|]. rewrite len_cons. exact Hhuge.
-  - (* every input of this shape crashes *)
-    intros (b & hb & sz & items & c & l & rest & Hh & Hnz & -> & Hsize & Hf & Hlt & Hc & Hhuge).
-    pose proof (header_len _ _ _ Hh) as [Hhl Hsz]. rewrite len_cons in Hhl. rewrite ?max_int_eq in Hsz.
-    pose proof (len_nonneg hb) as Hhb.
-    unfold rlp_decode_list, decode_list.
-    change (read_size ((b :: hb) ++ concat items ++ c :: l ++ rest) 0)
-      with (read_size ([] ++ b :: hb ++ (concat items ++ c :: l ++ rest)) (len [])).
-    rewrite read_size_app by assumption. rewrite len_nil.
-    rewrite (read_hdr_complete false b hb sz _ Hh). cbn [shift_hdr bind]. rewrite Z.add_0_l.
-    replace (sz =? 0) with false by (symmetry; apply Z.eqb_neq; exact Hnz).
-    rewrite len_cons in Hsize.
-    assert (Hpass : (wrap_int (sz + (1 + len hb)) >? len ((b :: hb) ++ concat items ++ c :: l ++ rest)) = false).
-    { rewrite Z.gtb_ltb. apply Z.ltb_ge. destruct Hsize as [Hs|Hs].
-      - rewrite wrap_int_id by lia. exact Hs.
-      - rewrite wrap_int_ovf by lia. pose proof (len_nonneg ((b :: hb) ++ concat items ++ c :: l ++ rest)). lia. }
-    rewrite Hpass.
-    replace (1 + len hb) with (len (b :: hb)) by (rewrite len_cons; lia).
-    rewrite (list_loop_crash_complete items ((b :: hb) ++ concat items ++ c :: l ++ rest) sz []
-               (S (length ((b :: hb) ++ concat items ++ c :: l ++ rest))) (b :: hb) c l rest 0 0);
-      try assumption; try reflexivity; try lia.
-    + pose proof (framed_items_length items Hf) as Hil.
-      assert (len (concat items) <= len ((b :: hb) ++ concat items ++ c :: l ++ rest)).
-      { rewrite !len_app. pose proof (len_nonneg (b :: hb)). pose proof (len_nonneg (c :: l ++ rest)). lia. }
-      unfold len in *. lia.
-    + rewrite len_cons. lia.
-Qed.
-
-Theorem never_crash_partial_exact inp :
-  bytes inp -> len inp < 2 ^ 62 -> ~ string_crash inp -> ~ list_crash inp ->
-  graceful (rlp_decode_string inp) /\ graceful (rlp_decode_list inp).
-Proof.
-  intros Hb Hlen Hs Hl. split; [apply rlp_string_graceful; assumption|].
-  destruct (outcome_classes_list inp Hb Hlen) as [(p & E)|[E|E]]; rewrite E; try exact I.
-  apply Hl. apply rlp_list_crash_iff; assumption.
-Qed.
+Theorem former_witnesses_rejected :
+  rlp_decode_string w_index = Err UserOther /\
+  rlp_decode_string w_overflow = Err UserOther /\
+  rlp_decode_list w_list_overflow = Err UserOther /\
+  rlp_decode_list w_list_overflow2 = Err UserOther /\
+  rlp_decode_list w_list_nc1 = Err UserOther.
+Proof. repeat split; reflexivity. Qed.
